@@ -31,6 +31,19 @@ def cases(tier, seed):
             cs.append({'scen': 'cross_index', 's': {'N': N, 'kick': 1, 'nswp': 2}})
             cs.append({'scen': 'cross_index', 's': {'N': N, 'kick': 1, 'nswp': 1, 'start_ranks': [1, 3, 1, 1]}})
             cs.append({'scen': 'cross_index', 's': {'N': N, 'kick': 2, 'nswp': 1, 'start_ranks': [1, 2, 5, 1]}})
+    # function_interpolate: structure only (shape of the result, form of the arguments handed to the user function, no exception)
+    # (orders from 2: the property quantifies over orders 2..5)
+    for N, Rx in [([2, 3], [1, 2, 1]), ([3, 2], [1, 1, 1]), ([2, 2, 2], [1, 2, 2, 1])] + ([([3, 3], [1, 3, 1]), ([2, 3, 2], [1, 2, 1, 1])] if th else []):
+        d = len(N)
+        for nargs in (0, d):              # univariate, or (as documented) as many argument tensors as modes
+            for kick in (0, 1, 2):
+                if kick == 1 and d >= 3 and not th:
+                    continue
+                cs.append({'scen': 'interp_structure', 's': {'N': N, 'Rx': Rx, 'nargs': nargs, 'kick': kick, 'nswp': 1}})
+            if d == 2:
+                cs.append({'scen': 'interp_structure', 's': {'N': N, 'Rx': Rx, 'nargs': nargs, 'kick': 2, 'nswp': 2}})
+                for R in ([1, 1, 1], [1, 3, 1]):
+                    cs.append({'scen': 'interp_structure', 's': {'N': N, 'Rx': Rx, 'nargs': nargs, 'kick': 1, 'nswp': 1, 'start_ranks': R}})
     # order 4: the first order at which a left index set with two columns is used
     for N in ([2, 3, 3, 2],) + (([3, 2, 2, 3], [2, 2, 2, 2], [2, 3, 4, 2], [4, 3, 2, 2]) if th else ()):      # neighbouring sizes distinct at both ends
         # one exploration split into independent cases by the outcomes of the first two rank truncations
@@ -56,6 +69,8 @@ def sig(case, label):
     if case['scen'] == 'maxvol_contract':
         return 'maxvol:%dx%d:%s' % (s['m'], s['n'], label)
     import re
+    if case['scen'] == 'interp_structure':
+        return 'interp_structure:N=%s:%s:%s' % ('x'.join(str(n) for n in s['N']), 'multi' if s.get('nargs') else 'uni', label)
     return 'cross_index:N=%s:%s:%s' % ('x'.join(str(n) for n in s['N']), 'start' if s.get('start_ranks') else 'random', re.sub(r'call\d+_col\d+', 'call_col', label))
 
 
@@ -64,14 +79,14 @@ def meta(tier):
     tt = loader.load()
     ip = tt.interpolate
     import torchtt._decomposition as dec
-    fns = [ip.dmrg_cross, ip._maxvol, ip._max_matrix, dec.rank_chop, dec.lr_orthogonal]
+    fns = [ip.dmrg_cross, ip.function_interpolate, ip._maxvol, ip._max_matrix, dec.rank_chop, dec.lr_orthogonal]
     return {
         'functions': loader.functions_encoded(fns), 'sig': sig,
         'bounds': 'CLAUSE DECIDED: only "dmrg_cross calls the user function with an M x d int64 index matrix whose column k lies in [0, N[k])" (plus shape/rank well-formedness of the result). '
                   'orders 2..4 (thorough 5), mode sizes 2..4 (thorough 5), kick 0..2, nswp 1..2, random start or a start tensor with ranks 1..5 (incl. ranks larger than the modes allow); every floating value is havoc (any value, '
                   'every comparison nondeterministic), so all outcomes of QR/SVD/solve/maxvol pivoting, rank_chop and the convergence test are covered; _maxvol: matrices m x n with m < 6 (8), n < 4 (5), '
                   'swap loop unrolled 2 (3) times',
-        'outside': 'the accuracy clause of C14 (convergence of a randomised floating-point iteration: not encodable), function_interpolate (its clause is about values drawn from the argument tensors), '
+        'outside': 'the accuracy clause of C14 (convergence of a randomised floating-point iteration: not encodable), the data clause of function_interpolate (values drawn from the argument tensors; only its structure - result shape, form of the arguments handed to the user function, no exception - is decided), '
                    'orders > 4, sizes > 5, more than 2 sweeps; _maxvol beyond the unrolled swap iterations (each iteration starts from a state no more general than the previous one: idx any in-range vector, Mat havoc)',
         'assumptions': ['floating data abstracted to HAVOC (over-approximation: infeasible combinations of comparison outcomes are explored too)',
                         'inside dmrg_cross, _maxvol is replaced by its contract (min(m,n) positions in [0,m)), which the scenario maxvol_contract decides on the real _maxvol body', 'inside dmrg_cross, rank_chop is replaced by "any rank in [1, len(s)]" (its kernel is decided under C01)',
